@@ -374,6 +374,53 @@ func (c *chessCtx) replay(o *Obs, c03 bool) (p *position.Position, perr string) 
 			perr = perr2
 		}
 	}
+	if perr == "" && ((c03 && needPush >= 0 && wantBefore != nil) || (c.props["C09"] && len(o.Path) > 0 && o.Path[len(o.Path)-1] < 0)) {
+		// ... and a third time with the check query asked of EVERY position on the way (so that every history entry is
+		// written with a cached answer in it): what an undo restores must not be what an earlier position at the same
+		// depth of the history left behind
+		perr3 := guard(func() {
+			q, _ := position.NewPositionFen(rootFen)
+			for i, op := range o.Path {
+				_ = q.HasCheck()
+				switch {
+				case op >= 0:
+					q.DoMove(engineMove(op, o.Kinds[i][0]))
+				case op == -2:
+					q.DoNullMove()
+				case op == -1:
+					q.UndoMove()
+				case op == -3:
+					q.UndoNullMove()
+				}
+			}
+			if c.props["C09"] {
+				// the cached answer of the position reached through this history against the board itself
+				c.res.count("C09.has_check_after_history", 1)
+				if got, want := q.HasCheck(), q.IsAttacked(q.KingSquare(q.NextPlayer()), q.NextPlayer().Flip()); got != want {
+					c.disc("C09", "has-check", "has-check/every-position-was-queried", o, q.StringFen(), map[string]bool{"HasCheck": got, "king_attacked": want})
+				}
+			}
+			if !(c03 && needPush >= 0 && wantBefore != nil) {
+				return
+			}
+			c.res.count("C03.undo_compared_every_position_queried", 1)
+			after := takeSnap(q, true)
+			if d := snapDiff(*wantBefore, after); len(d) > 0 {
+				sig := c.driftSig(diffNames(d))
+				if !strings.HasPrefix(sig, "gamePhase-drift/") {
+					sig += "/every-position-was-queried"
+				}
+				kind := "undo-restores"
+				if o.Path[len(o.Path)-1] == -3 {
+					kind = "undonull-restores"
+				}
+				c.disc("C03", kind, sig, o, wantBefore.Fen, d)
+			}
+		})
+		if perr3 != "" {
+			perr = perr3
+		}
+	}
 	return p, perr
 }
 
